@@ -168,15 +168,17 @@ def c_query(ctx, args):
         f = lambda: o.expect(a)
     elif meth == 'entropy':
         # every region kind: arbitrary subsets, leading and trailing blocks, whole system; called twice (the value must not change either)
-        lo = rng.randrange(n)
-        region = rng.choice([[q for q in range(n) if rng.random() < 0.5] or [0], list(range(lo, n)), list(range(0, lo + 1)), list(range(n))])
+        regions = [[q for q in range(n) if rng.random() < 0.5] or [0]] + [list(range(lo, n)) for lo in range(n)] + [list(range(0, hi + 1)) for hi in range(n)]
 
         def f():
-            a1 = o.entropy(region)
-            a2 = o.entropy(np.array([q in region for q in range(n)]))
-            if a1 != a2:
-                raise AssertionError('entropy changed between two calls: %r %r' % (a1, a2))
-            return a1
+            out = []
+            for region in regions:
+                a1 = o.entropy(region)
+                a2 = o.entropy(np.array([q in region for q in range(n)]))
+                if a1 != a2:
+                    raise AssertionError('entropy changed between two calls: %r %r' % (a1, a2))
+                out.append(a1)
+            return out
     elif meth == 'sample':
         f = lambda: o.sample(3)
     elif meth == 'get_prob':
@@ -357,6 +359,9 @@ def run(ctx):
         for m in meths:
             for _ in range(max(8, int(10 * B))):
                 do(ctx, 'query', [kind, m, rng.randint(1, 4), rng.randrange(10 ** 6)], nontrivial=('q', kind, m, ctx.res.evaluations))
+    # the rank kernels work in place on whatever they are handed: entropy on larger, mixed and pure states, every block region
+    for _ in range(max(30, int(30 * B))):
+        do(ctx, 'query', ['StabilizerState', 'entropy', rng.randint(3, 6), rng.randrange(10 ** 6)], nontrivial=('qe', ctx.res.evaluations))
     for op in ['rotate_by', 'transform_by', 'measure', 'measure_state', 'gate_forward', 'gate_backward', 'circuit_forward', 'circuit_backward', 'layer_forward']:
         for _ in range(max(3, int(5 * B))):
             do(ctx, 'inplace', [op, rng.randint(2, 4), rng.randrange(10 ** 6)], nontrivial=('i', op, ctx.res.evaluations))
